@@ -183,6 +183,61 @@ def validate_and_collect(chk, pid, jobs_by_algs):
                 chk.add_violation(clause, sig, {'trace': tid, 'line': line, 'event': ev}, {'job': job, 'line': line, 'algs': algs})
 
 
+def data_plane(chk, pid, thorough, seed, rnd):
+    '''C02 end-state part: spec/Sched_Data.tla (MC) + real scheduler with the abstract pure-function worker'''
+    c = dict(consts(ALG3, 'Programs3Alg', 10), MaxBump='2' if thorough else '1')
+    chk.mc('mc_data', 'Sched_Data.tla', dict(spec='DSpec', constants=c, invariants=['C02_EndState', 'C02_Justified', 'C02_NoneOwed']))
+    if thorough:
+        chk.mc('mc_data_val', 'Sched_Data.tla', dict(spec='DSpec', constants=dict(consts(ALG3, 'Programs3Val', 10), MaxBump='1'), invariants=['C02_EndState', 'C02_Justified', 'C02_NoneOwed']))
+
+    def run_gen(name, consts_, sim=None):
+        cfg = os.path.join(chk.work, f'{name}.cfg')
+        if sim:
+            tlc.write_cfg(cfg, spec='GenSpec', constants=consts_, invariants=['SimInv'])
+            res = tlc.run('Sched_Data_Gen.tla', cfg, workers=1, simulate=f'num={sim[0]}', depth=sim[1], seed=seed, timeout=900, out_file=os.path.join(chk.work, f'{name}.out'))
+        else:
+            tlc.write_cfg(cfg, spec='GenSpec', constants=consts_, extra=['VIEW View', 'ACTION_CONSTRAINT Emit'])
+            res = tlc.run('Sched_Data_Gen.tla', cfg, workers=1, timeout=1800, out_file=os.path.join(chk.work, f'{name}.out'))
+            if not res.ok:
+                raise core.Machinery(f'generation {name} failed: {res.error or res.violated}')
+        chk.mc_runs.append(dict(res.summary(), name=name, module='Sched_Data_Gen.tla'))
+        return parse_scheds(res, maximal_only=bool(sim))
+
+    trans = run_gen('gen_data', dict(consts(ALG3, 'Programs3Alg', 10), MaxBump='1'))
+    total = len(trans)
+    if not thorough:
+        rnd.shuffle(trans)
+        trans = trans[:1500]
+    sim = run_gen('sim_data', dict(consts(ALG3, 'Programs3Val', 10), MaxBump='3'), sim=(2000 if thorough else 300, 30))
+    jobs = []
+    for s in trans + sim:
+        evs = []
+        for e in s['h']:
+            e = dict(e)
+            if 'N' in e:
+                e['N'] = sorted(e['N'])
+            evs.append(e)
+        jobs.append({'id': len(jobs), 'desc': prog_to_desc(s['prog']), 'targets': TARGETS, 'events': evs})
+    files = chk.run_harness('data_h', jobs)
+    chk.traces += len(jobs)
+    rows = chk.validate('Sched_Data_Trace.tla', dict(spec='TraceSpec', constants=dict(consts(ALG3, None, 10**6, 10**6), MaxBump='1000000'), extra=['POSTCONDITION AllConsumed']), files, tags=('CLAUSE', 'CONSUMED'))
+    byid = {j['id']: j for j in jobs}
+    for _tag, tid, line, ev, bad in rows['CLAUSE']:
+        for clause in sorted(bad['set']):
+            if clause.startswith(pid + '.'):
+                job = byid[tid]
+                kinds = [e['ev'] for e in job['events']]
+                sig = 'data:' + (','.join(kinds[: line - 1]) if line - 1 <= len(kinds) else ','.join(kinds) + ',drain')
+                chk.add_violation(clause, sig, {'trace': tid, 'line': line, 'event': ev}, {'data_job': job, 'line': line})
+    nexec = 0
+    for fn in files:
+        with open(fn) as f:
+            for ln in f:
+                nexec += sum(1 for st in json.loads(ln)['steps'] if st['ev'] == 'ExecReply')
+    chk.counters.update(data_plane_transitions=total, data_plane_schedules=len(jobs), data_plane_executions=nexec)
+    chk.samples.append({'data_plane_events': jobs[0]['events']})
+
+
 def nontrivial(jobs):
     '''distinct schedules that release at least one unit and apply at least one reply'''
     seen = set()
@@ -199,6 +254,15 @@ def run(pid, tier, seed, replay=None):
     if replay:
         with open(replay) as f:
             rp = json.load(f)['replay']
+        if 'data_job' in rp:
+            files = chk.run_harness('data_h', [rp['data_job']])
+            rows = chk.validate('Sched_Data_Trace.tla', dict(spec='TraceSpec', constants=dict(consts(ALG3, None, 10**6, 10**6), MaxBump='1000000'), extra=['POSTCONDITION AllConsumed']), files, tags=('CLAUSE', 'CONSUMED'))
+            for _tag, tid, line, ev, bad in rows['CLAUSE']:
+                for clause in sorted(bad['set']):
+                    if clause.startswith(pid + '.'):
+                        chk.add_violation(clause, 'replay', {'line': line, 'event': ev}, rp)
+            chk.traces = 1
+            return chk.finish('replay of one recorded data-plane schedule')
         validate_and_collect(chk, pid, [(rp['algs'], [rp['job']])])
         return chk.finish('replay of one recorded schedule')
     thorough = tier == 'thorough'
@@ -221,6 +285,8 @@ def run(pid, tier, seed, replay=None):
     chk.samples = [{'algs': ALG3, 'events': j['events']} for j in rnd.sample(jobs3, min(3, len(jobs3)))] + [{'algs': ALG4, 'events': j['events']} for j in jobs4[:1]]
     # 3+4
     validate_and_collect(chk, pid, [(ALG3, jobs3), (ALG4, jobs4)])
+    if pid == 'C02':
+        data_plane(chk, pid, thorough, seed, rnd)
     chk.counters.update(
         transitions_of_gen_instance=total_transitions,
         transitions_replayed=len(scheds),
